@@ -1,8 +1,10 @@
 (* C14 — property theorems only (proved in C14/Proofs*.v).  All statements quantify over every
    schedule (list of (thread, choice)) of the model C14/Model.v, any number of threads, any
-   scripts, each of the three back-ends.  [c_fix_exit] / [c_fix_add] = true is the code with
+   scripts (wake-up, hand-over, exit, shutdown of a registered context, data from / close by its
+   peer), any scripts of the user's wake and timer callbacks, timer interval 0 or none, each of the
+   three back-ends.  [c_fix_exit] / [c_fix_add] = true is the code with
    fixes/C14-exit-before-run.patch / fixes/C14-add-ctx-failure.patch applied. *)
-From MV Require Import C14.Model C14.ProofsBase C14.ProofsWake C14.ProofsExit C14.ProofsHandover C14.ProofsVariant C14.ProofsFair gen.Params_C14.
+From MV Require Import C14.Model C14.ProofsBase C14.ProofsWake C14.ProofsExit C14.ProofsHandover C14.ProofsVariant gen.Params_C14.
 
 (* the exit status values the model uses are the ones event_loop.h defines *)
 Theorem c14_exit_status_constants : code_st_exit = ST_EXIT /\ code_st_wake = ST_WAKE.
@@ -12,7 +14,8 @@ Print Assumptions c14_exit_status_constants.
 (* wake_not_lost: [w_req] = completed wake-up requests, [w_seen] = its value when the latest wake
    callback started.  While a request is unserved (w_seen < w_req): before run() the eventfd
    counter is positive; inside the loop a wake callback is about to start (the loop is between
-   the poll return that reported the signal and the callback) or the next poll attempt reports
+   the clear-up of the signal and the callback), or the signal has been reported to the pass in
+   progress and handle_wakeup is still to come (epoll batch), or the next poll attempt reports
    the signal.  Coalescing allowed; holds for the unrepaired code too. *)
 Theorem wake_not_lost : forall C sched,
   let s := exec sys (step C) init sched in
@@ -20,19 +23,24 @@ Theorem wake_not_lost : forall C sched,
   (w_seen s < w_req s ->
    (prerun (thr s (c_loop C)) = true -> 0 < cnt s) /\
    (in_body (thr s (c_loop C)) = true ->
-    served_soon (thr s (c_loop C)) = true \/ ready C s = true)).
+    served_soon (thr s (c_loop C)) = true \/
+    (in_pass (thr s (c_loop C)) = true /\ c_be C = BEpoll /\ sig_pending s) \/
+    ready C s = true)).
 Proof. exact wake_not_lost_all. Qed.
 Print Assumptions wake_not_lost.
 
-(* ... so the loop never goes to sleep with an unserved request *)
+(* ... so the loop never goes to sleep with an unserved request: the poll reports the signal *)
 Theorem wake_poll_never_sleeps_with_request : forall C sched,
   let s := exec sys (step C) init sched in
   w_seen s < w_req s -> thr s (c_loop C) = APoll ->
-  exists s', step C s (c_loop C) 0 = Some (s', ev_poll true).
+  forall ch, exists s' n, step C s (c_loop C) ch = Some (s', ev_poll true n) /\ 0 < n /\
+                          thr s' (c_loop C) = SPollRet /\ sig_pending s'.
 Proof. exact wake_poll_never_sleeps. Qed.
 Print Assumptions wake_poll_never_sleeps_with_request.
 
-(* handover_once: see C14/ProofsHandover.v *)
+(* handover_once: see C14/ProofsHandover.v.  The places of a handed-over context: queued,
+   registered (in the loop's list), released by the wake callback (registration failed), by the
+   exit callback, by the back-end's close dispatch. *)
 Theorem handover_once : forall C sched, c_fix_add C = true ->
   let s := exec sys (step C) init sched in
   (forall x, count_occ Nat.eq_dec (g_enq s) x <= 1) /\
@@ -47,29 +55,55 @@ Theorem handover_each_released_exactly_once_at_return : forall C sched, c_fix_ad
   let s := exec sys (step C) init sched in
   returned s = true -> c_bare C = false ->
   forall x, In x (g_enq s) ->
-  count_occ Nat.eq_dec (g_relfail s ++ g_relclear s ++ g_relexit s) x + count_occ Nat.eq_dec (g_late s) x = 1.
+  count_occ Nat.eq_dec (g_relfail s ++ g_relclose s ++ g_relclear s ++ g_relexit s) x + count_occ Nat.eq_dec (g_late s) x = 1.
 Proof. exact handover_released_once. Qed.
 Print Assumptions handover_each_released_exactly_once_at_return.
 
+(* the clear pass releases every context still in the loop's list WHATEVER ITS FLAGS: a context
+   flagged CLOSED (shut down from a callback or another thread) that the back-end has not
+   dispatched before the exit test - shutdown and exit in the same iteration - is still in the
+   list and is released by the clear pass, exactly once and by nothing else *)
+Theorem clear_pass_releases_flagged_contexts : forall C sched, c_fix_add C = true ->
+  let s := exec sys (step C) init sched in
+  (forall x, In x (hup s) -> In x (reg s)) /\
+  (returned s = true -> c_bare C = false ->
+   forall x, In x (reg s) ->
+     count_occ Nat.eq_dec (g_relclear s) x = 1 /\ count_occ Nat.eq_dec (g_relclose s) x = 0 /\
+     count_occ Nat.eq_dec (g_relfail s) x = 0 /\ count_occ Nat.eq_dec (g_relexit s) x = 0 /\
+     count_occ Nat.eq_dec (queue s) x = 0).
+Proof. exact flagged_contexts_released_by_clear. Qed.
+Print Assumptions clear_pass_releases_flagged_contexts.
+
+(* witness: shutdown by the wake callback and exit in the same iteration, epoll and poll: the
+   context is flagged, never dispatched, released by the clear pass *)
+Theorem shutdown_then_exit_before_dispatch_is_cleared :
+  forall be, be = BEpoll \/ be = BPoll ->
+  let s := exec sys (step (cfg_shut_exit be)) init sched_shut_exit in
+  returned s = true /\ g_enq s = [0] /\ reg s = [0] /\ hup s = [0] /\
+  g_relclear s = [0] /\ g_relclose s = [] /\ queue s = [].
+Proof. exact shutdown_then_exit_before_dispatch. Qed.
+Print Assumptions shutdown_then_exit_before_dispatch_is_cleared.
+
 (* exit_returns, safety part (DESIGN.md 6/C14: "as invariant + variant"): (1) the invariant
-   "EXIT/WAKE pending => a writer of the signal is in flight, or the loop thread is past a poll
-   return in this iteration, or the signal is readable"; (2) a poll attempt with an exit pending
-   and no writer in flight reports the signal (the loop cannot sleep); (3) the exit test after any
-   wake-up with an exit pending leaves the loop towards the clear and exit callbacks; (4) the loop
-   thread is never stuck: when it cannot step it waits for the handle's mutex whose holder can
-   step.  The liveness statement itself is [exit_returns_fair] below. *)
+   "EXIT/WAKE pending => a writer of the signal is in flight, or the loop thread is on its way to
+   an exit test that leaves, or the signal is readable"; (2) a poll attempt with an exit pending
+   and no writer in flight reports the signal (the loop cannot sleep); (3) the step at the end of
+   on_wake either starts the user's wake callback script (the promotion follows it) or leaves
+   to_exit = EXIT, and the exit test leaves as soon as to_exit is EXIT; (4) the loop thread is never
+   stuck: when it cannot step it waits for the handle's mutex whose holder can step. *)
 Theorem exit_returns : forall C sched, c_fix_exit C = true ->
   let s := exec sys (step C) init sched in
   ((to_exit s = 0 \/ to_exit s = ST_EXIT \/ to_exit s = ST_WAKE) /\
    (to_exit s <> 0 ->
     (prerun (thr s (c_loop C)) = true -> writer_in_flight s \/ 0 < cnt s) /\
     (in_body (thr s (c_loop C)) = true ->
-     writer_in_flight s \/ past_poll (thr s (c_loop C)) = true \/ ready C s = true))) /\
+     writer_in_flight s \/ past_poll C s (thr s (c_loop C)) \/ ready C s = true))) /\
   (to_exit s <> 0 -> ~ writer_in_flight s -> thr s (c_loop C) = APoll ->
-   exists s', step C s (c_loop C) 0 = Some (s', ev_poll true) /\ thr s' (c_loop C) = SPollRet) /\
+   forall ch, exists s' n, step C s (c_loop C) ch = Some (s', ev_poll true n) /\ 0 < n /\
+                           thr s' (c_loop C) = SPollRet /\ sig_pending s') /\
   (to_exit s <> 0 -> thr s (c_loop C) = SWakeEnd ->
-   exists s', step C s (c_loop C) 0 = Some (s', LPlain (wake_notes C)) /\
-              leaving (thr s' (c_loop C)) = true /\ to_exit s' = ST_EXIT) /\
+   exists s' l, step C s (c_loop C) 0 = Some (s', l) /\
+     ((thr s' (c_loop C) = Cb (QY 0) /\ cbk s' = false /\ to_exit s' = to_exit s) \/ to_exit s' = ST_EXIT)) /\
   (thr s (c_loop C) <> SStart -> thr s (c_loop C) <> Done -> step C s (c_loop C) 0 = None ->
    exists u, u <> c_loop C /\ mtx s = Some u /\ step C s u 0 <> None).
 Proof.
@@ -81,32 +115,39 @@ Proof.
 Qed.
 Print Assumptions exit_returns.
 
+(* the exit test leaves the loop as soon as to_exit is EXIT, wherever it is reached *)
+Theorem exit_test_with_exit_leaves : forall C s t ns s' l,
+  to_exit s = ST_EXIT -> exit_test C s t ns = Some (s', l) -> leaving (thr s' t) = true /\ to_exit s' = ST_EXIT.
+Proof. exact exit_test_leaves_loop. Qed.
+Print Assumptions exit_test_with_exit_leaves.
+
 (* every theorem of this file quantifies over the configuration [C], which includes which optional
-   callbacks are installed (c_cb_wake, c_cb_add, c_cb_release, c_cb_read, c_cb_close, c_cb_clear,
-   c_cb_exit, c_cb_timer) and whether the loop is bare or has a socket handle attached (c_bare).
-   For a bare loop the exit test is reached in the plain segment that follows the clear-up: the
+   callbacks are installed and whether the loop is bare or has a socket handle attached.  For a
+   bare loop the exit test is reached in the plain segment that follows the clear-up: the
    WAKE -> EXIT promotion happens whether or not a wake callback is installed, and the loop goes
    through the clear callbacks and the exit callback (those that are installed) to the return *)
 Theorem exit_test_promotes_without_callbacks : forall C sched, c_fix_exit C = true -> c_bare C = true ->
   let s := exec sys (step C) init sched in
   to_exit s <> 0 -> thr s (c_loop C) = SWake ->
-  exists s', step C s (c_loop C) 0 = Some (s', LPlain (wake_notes C ++ bare_exit_notes C)) /\
+  exists s' ns, step C s (c_loop C) 0 = Some (s', LPlain (wake_notes C ++ ns ++ bare_exit_notes C)) /\
              thr s' (c_loop C) = AFin /\ returned s' = true /\ to_exit s' = ST_EXIT.
 Proof. exact exit_test_leaves_bare. Qed.
 Print Assumptions exit_test_promotes_without_callbacks.
 
-(* variant: with an exit pending and the loop thread past a poll return, every step of the loop
-   thread keeps it on the way out and strictly decreases [rank]; a step of another thread leaves
-   the loop thread where it is and raises the rank by at most 2 (an enqueue); rank 1 is reached
-   only with run() returned *)
+(* variant: with an exit pending and the loop thread on its way out ([ranked]: handling the
+   wake-up, in the user's wake callback, or with EXIT set in the rest of the pass / the timer
+   callback / past the loop), every step of the loop thread keeps it on the way out and strictly
+   decreases [rank] - through the callbacks' scripts, the close dispatches of flagged contexts, the
+   clear pass and the exit callback; a step of another thread leaves the loop thread where it is and
+   raises the rank by at most 2 (an enqueue); rank 1 is reached only with run() returned *)
 Theorem exit_returns_variant : forall C sched, c_fix_exit C = true -> c_fix_add C = true ->
   let s := exec sys (step C) init sched in
-  (forall ch s' l, to_exit s <> 0 -> ranked (thr s (c_loop C)) = true -> thr s (c_loop C) <> Done ->
+  (forall ch s' l, to_exit s <> 0 -> ranked C s (thr s (c_loop C)) = true -> thr s (c_loop C) <> Done ->
      step C s (c_loop C) ch = Some (s', l) ->
-     ranked (thr s' (c_loop C)) = true /\ rank s' (thr s' (c_loop C)) < rank s (thr s (c_loop C))) /\
+     ranked C s' (thr s' (c_loop C)) = true /\ rank C s' (thr s' (c_loop C)) < rank C s (thr s (c_loop C))) /\
   (forall t ch s' l, t <> c_loop C -> step C s t ch = Some (s', l) ->
-     thr s' (c_loop C) = thr s (c_loop C) /\ rank s' (thr s (c_loop C)) <= rank s (thr s (c_loop C)) + 2) /\
-  (rank s (thr s (c_loop C)) = 1 -> returned s = true).
+     thr s' (c_loop C) = thr s (c_loop C) /\ rank C s' (thr s (c_loop C)) <= rank C s (thr s (c_loop C)) + 2) /\
+  (rank C s (thr s (c_loop C)) = 1 -> returned s = true).
 Proof. exact exit_variant_all. Qed.
 Print Assumptions exit_returns_variant.
 
@@ -127,36 +168,3 @@ Theorem handover_once_refuted_on_unrepaired_code :
   g_relclear s = [0] /\ queue s = [].
 Proof. exact handover_once_refuted. Qed.
 Print Assumptions handover_once_refuted_on_unrepaired_code.
-
-(* ---- fair schedules (C14/ProofsFair.v) ----
-   A schedule is fair when it is a sequence of rounds each of which schedules every thread at
-   least once (any order, any multiplicity, other entries allowed).  Scripts are finite lists.
-   [G C s] is an explicit natural-number measure of the state (remaining script work, pending
-   loop iterations, queue and ctx_list lengths, position of the loop thread). *)
-
-(* exit_returns, full statement: at any point of any schedule at which an exit has been requested
-   by any thread (before run() records its id, during poll, during dispatch, while already
-   exiting), every fair continuation of more than G rounds ends with the loop thread finished:
-   muggle_evloop_run has returned, after the clear callbacks (every registered context released)
-   and the exit callback (what is still queued was enqueued after it). *)
-Theorem exit_returns_fair : forall C pre rounds,
-  c_fix_exit C = true -> c_fix_add C = true -> c_loop C < c_n C ->
-  let s := exec sys (step C) init pre in
-  to_exit s <> 0 -> Forall (fair_round C) rounds -> G C s < length rounds ->
-  let s' := exec sys (step C) init (pre ++ concat rounds) in
-  thr s' (c_loop C) = Done /\ returned s' = true /\
-  (c_bare C = false -> g_relclear s' = reg s' /\ exitdr s' = true /\ queue s' = g_late s').
-Proof. exact exit_returns_fair_all. Qed.
-Print Assumptions exit_returns_fair.
-
-(* wake_not_lost, liveness: every wake-up request completed at a point of a schedule has, after
-   more than G fair rounds, been followed by the start of a wake callback - unless the loop has
-   left its body (an exit was requested) *)
-Theorem wake_served_fair : forall C pre rounds,
-  c_fix_exit C = true -> c_fix_add C = true -> c_loop C < c_n C ->
-  let s := exec sys (step C) init pre in
-  Forall (fair_round C) rounds -> G C s < length rounds ->
-  let s' := exec sys (step C) init (pre ++ concat rounds) in
-  w_req s <= w_seen s' \/ leaving (thr s' (c_loop C)) = true.
-Proof. exact wake_served_fair_all. Qed.
-Print Assumptions wake_served_fair.
